@@ -182,8 +182,9 @@ def check_graph(chk, P, names, edges, counters, light=False):
     # kcuts (acyclic only); once with a fresh memo per call and once with the documented shared `computed` cache
     if not cyc:
         srcs = {x for x in names if not g._pred[x]}
-        shared = {1: {}, 2: {}}
-        for n, k, use_shared in [(n, k, s) for s in (False, True) for n in names for k in (1, 2)]:
+        shared = {0: {}, 1: {}, 2: {}}
+        # (k = 0: no cut other than {n} fits the bound - a node with a single fan-in included)
+        for n, k, use_shared in [(n, k, s) for s in (False, True) for n in names for k in (0, 1, 2)]:
             if True:
                 r = call("kcuts", n, k, shared[k]) if use_shared else call("kcuts", n, k)
                 counters["obs"]["C12.Q.kcuts"] = counters["obs"].get("C12.Q.kcuts", 0) + 1
